@@ -178,6 +178,8 @@ fn viewsets() -> Vec<ViewSet> {
             let vc = c.0; m.push(bump(&mut c.0));
             Row { id: Some(idp(id)), vals: vec![Some(va), Some(b.map(|b| b.0)), Some(Some(vc))], muts: m }
         }),
+        viewset!("&A,Option<&C>,id", Views!(&A, Option<&C>, entity::Identifier), filter::None, |result!(a, c, id)| Row { id: Some(idp(id)), vals: vec![Some(Some(a.0)), Some(c.map(|c| c.0))], muts: vec![] }),
+        viewset!("&B,&mut C,Option<&A>", Views!(&B, &mut C, Option<&A>), filter::None, |result!(b, c, a)| { let vc = c.0; let m = bump(&mut c.0); Row { id: None, vals: vec![Some(Some(b.0)), Some(Some(vc)), Some(a.map(|a| a.0))], muts: vec![m] } }),
         viewset!("&A|Has<B>", Views!(&A), filter::Has<B>, |result!(a)| Row { id: None, vals: vec![Some(Some(a.0))], muts: vec![] }),
         viewset!("&mut A,id|Not<Has<C>>", Views!(&mut A, entity::Identifier), filter::Not<filter::Has<C>>, |result!(a, id)| { let v = a.0; let m = bump(&mut a.0); Row { id: Some(idp(id)), vals: vec![Some(Some(v))], muts: vec![m] } }),
     ]
